@@ -13,6 +13,8 @@ CLAIMED = {
   "Coq theorem cons_check_sound: accepted instances keep every input block once, with payload, arity and positional successors (renamed only to new names). Per instance, every stage, three payload types."),
  "C06": ("translation_validation", "5 (C06)", "verified closed-set control-variable checker (Coq)",
   "Coq theorem ctrl_check_sound/c06_check_sound: in accepted instances ALL decision lists run without an unset, out-of-range or stale control-variable read, and every value table agrees with the block's successors. Per instance, every stage."),
+ "C13": ("proof", "5 (C13)", "Coq proofs of line-by-line query models and of closure-based reference definitions; implementation compared with them exhaustively on small graphs",
+  "Universal Coq theorems over arbitrary graphs: find_head is sound and complete; headers/entries and exiting/exits equal their set definitions and come out sorted (line-by-line models); reference reachability (>=1 edge), dominance in both directions and strongly connected components equal their path-based definitions. The implementation's answers (find_head, both subset queries for all subsets, is_reachable_dfs for all pairs, _doms, _post_doms, compute_scc) are compared with these on ALL graphs with <=3 nodes/out-degree 2 and on random graphs up to 30 nodes."),
  "C18": ("proof", "5 (C18)", "Coq proof over a model of NameGenerator translated from source; exact correspondence on recorded histories",
   "Universal Coq theorems over the NameGenerator model: joint injectivity of the three name templates for arbitrary kind strings, pairwise distinctness for any request interleaving from any generator state, parse(render)=id, Covers after reserve, and C18_request_fresh: after ANY history of SCFG constructions, add_block calls and requests a requested name is neither present nor handed out before. Templates, counter discipline, the regular expression, reserve_names and its call sites are re-translated from scfg.py on every run (fail-closed); model and implementation agree exactly on recorded histories."),
 }
